@@ -591,3 +591,42 @@ func VerifH_C01_ModConcrete() {
 	}
 	expectNum(r, want, "c01.modconcrete")
 }
+
+// VerifH_C01_NumberPadding: string -> number conversion strips exactly the XPath white
+// space (#x20 #x9 #xD #xA, XPath 1.0 §4.4) around the number; any other control character
+// makes the string not a number (NaN).  The padded text reaches the conversion as a
+// leaf value, through number(), arithmetic and a comparison.
+func VerifH_C01_NumberPadding() {
+	pad := func(tag string) (string, bool, bool) {
+		if !vrt.Bool(tag + ".present") {
+			return "", true, false
+		}
+		w := vrt.Byte(tag)
+		vrt.Assume(vrt.Or(w <= 0x20, w == 0x7f))
+		xws := vrt.Or(w == ' ', vrt.Or(w == '\t', vrt.Or(w == '\n', w == '\r')))
+		goOnly := vrt.Or(w == '\v', w == '\f') // what strings.TrimSpace strips beyond XPath's set
+		return string([]byte{w}), xws, goOnly
+	}
+	l, lOK, lGo := pad("left")
+	r, rOK, rGo := pad("right")
+	s := l + "7" + r
+	isNum := vrt.And(lOK, rOK)
+	// known: VT and FF are stripped too (strings.TrimSpace)
+	vrt.Class("C01-number-of-string-strips-vt-ff", vrt.And(vrt.Or(lGo, rGo), vrt.And(vrt.Or(lOK, lGo), vrt.Or(rOK, rGo))))
+	form := vrt.Choice("form", 3)
+	text := []string{"number(a)", "a + 1", "a = 7"}[form]
+	vrt.Reach("c01.numberpadding")
+	res, ok := runTemplate(text, map[string]xpath.Datum{"a": xpath.NewLiteralDatum(s)})
+	if !ok {
+		return
+	}
+	switch form {
+	case 0:
+		expectNum(res, vrt.IteFloat64(isNum, 7, math.NaN()), "c01.numberpadding[number]")
+	case 1:
+		expectNum(res, vrt.IteFloat64(isNum, 8, math.NaN()), "c01.numberpadding[plus]")
+	default:
+		// a literal compared with a number: both converted to numbers
+		expectBool(res, isNum, "c01.numberpadding[equals]")
+	}
+}
